@@ -36,6 +36,22 @@ def check(ctx, R):
     _async(ctx, R, T)
     from .c12 import _transport_close
     _transport_close(ctx, R, only=("transport.tcp_transport.TcpTransport", "transport.tcp_transport_async.TcpTransportAsync"))   # close is idempotent, a closed transport can connect again
+    # a fresh transport is "not connected": its handle attributes exist and are None, so close() before any connect() is a no-op
+    for cq, attrs in (("transport.tcp_transport.TcpTransport", ("_connection",)), ("transport.tcp_transport_async.TcpTransportAsync", ("_reader", "_writer"))):
+        cls = ctx.pkg.cls(cq)
+        init = cls.methods["__init__"]
+        b = {p: ("p", p) for p in init.params[1:]}
+        obj = ("new", cls.qualname, tuple(sorted(b.items())))
+        for a in attrs:
+            ws = [st for (k, st, kind) in attr_writes(init) if k == init.params[0] + "." + a]
+            val = T.term(init, ctx.cfg(init).nodes_of(ws[0])[0], ws[0].value) if len(ws) == 1 and isinstance(ws[0], ast.Assign) and ctx.cfg(init).nodes_of(ws[0]) else ("missing",)
+            R.check(val == ("c", None), "CLOSE", "%s.__init__|%s" % (cq, a), "`%s` starts as None" % a,
+                    "`%s` is not initialised to None by the constructor: close() (which AdbDevice.connect() calls first) fails on a fresh transport" % a, init.loc())
+    # async close really closes: writer.close() and wait_closed() under the connected guard
+    fa = ctx.pkg.cls("transport.tcp_transport_async.TcpTransportAsync").methods["close"]
+    ga = ctx.cfg(fa)
+    calls = [call_attr(c) for n in ga.live_nodes() for c in node_calls(n) if isinstance(c.func, ast.Attribute) and varkey(unawait(c.func.value)) == fa.params[0] + "._writer"]
+    R.check(calls == ["close", "wait_closed"], "CLOSE", fa.qualname + "|closes-writer", "the stream writer is closed and awaited", "async close() calls %s on the writer, expected close() then wait_closed()" % calls, fa.loc())
     # the address a session goes to: (host, port) stored unchanged and forwarded unchanged by the TCP device classes
     from ..argrule import arg_rule
     for cq in ("transport.tcp_transport.TcpTransport", "transport.tcp_transport_async.TcpTransportAsync"):
